@@ -122,7 +122,11 @@ fn main() {
                 n += 1;
                 let exp = &case["exp"];
                 // single-event ops: exp is the res; multi-event ops (tbl ...): exp is the list of res after the head
-                let ok = if evs.len() == 1 {
+                // an empty expectation (the specification leaves this answer open) accepts anything
+                let open_answer = exp.as_array().map(|a| a.is_empty()).unwrap_or(false) && evs.len() == 1;
+                let ok = if open_answer {
+                    true
+                } else if evs.len() == 1 {
                     subsumes(exp, &evs[0]["res"])
                 } else {
                     match exp.as_array() {
